@@ -124,6 +124,24 @@ fn case_strategy() -> impl Strategy<Value = Case> {
     })
 }
 
+/// long thin rectangles: spans around the sheet limits (16384 columns, 1048576 rows) and beyond,
+/// which no format-specific limit may clamp inside Range itself
+fn thin_strategy() -> impl Strategy<Value = Case> {
+    let span = prop_oneof![
+        proptest::sample::select(vec![255u32, 256, 16_382, 16_383, 16_384, 16_385, 20_000]).prop_map(|w| (0u32, w)),
+        proptest::sample::select(vec![65_535u32, 65_536, 1_048_574, 1_048_575, 1_048_576, 1_048_577, 1_200_000]).prop_map(|h| (h, 0u32)),
+    ];
+    (proptest::sample::select(vec![0u32, 1, 5, 100]), proptest::sample::select(vec![0u32, 3, 7]), span, nonempty_val(), nonempty_val(), 0u8..3).prop_map(|(r0, c0, (h, w), a, b, tail)| {
+        let mut ops = vec![Op::FromSparse(vec![((r0, c0), a), ((r0 + h, c0 + w), b)])];
+        match tail {
+            0 => ops.push(Op::SubRange((r0, c0), (r0 + h.min(3), c0 + w.min(3)))),
+            1 => ops.push(Op::SetValue { dr: h.min(2), dc: w.min(2), v: V::I(9) }),
+            _ => {}
+        }
+        Case { ops }
+    })
+}
+
 // ---------------------------------------------------------------------------------------------
 // reference model
 
@@ -548,6 +566,8 @@ fn run(ctx: &mut Ctx) {
     ctx.run("data", n, case_strategy, oracle_data);
     let n = ctx.n(1000, 100_000);
     ctx.run("string", n, case_strategy, oracle_string);
+    let n = ctx.n(6, 300);
+    ctx.run("thin", n, thin_strategy, oracle_data);
     if !ctx.quick() {
         exhaustive(ctx);
     }
@@ -560,6 +580,7 @@ fn replay(sub: &str, case: &serde_json::Value) -> Option<Report> {
     match sub {
         "data" => replay_as::<Case>(case, oracle_data),
         "string" => replay_as::<Case>(case, oracle_string),
+        "thin" => replay_as::<Case>(case, oracle_data),
         _ => None,
     }
 }
